@@ -87,6 +87,9 @@ def case_strategy(opts=None, max_ops=3, modes=("emulated",)):
             "combo": draw(st.sampled_from(COMBOS)),
             "optimize": draw(st.booleans()),
             "mode": draw(st.sampled_from(list(modes))),
+            # histories that touch lazily cached state of the Spec / arrays on one side only
+            "sender_computes": draw(st.booleans()),
+            "explicit_executor": draw(st.booleans()),
         }
 
     return cases()
@@ -130,7 +133,7 @@ def check_case(case) -> Outcome:
                 req = os.path.join(wd, "req.json")
                 resp = os.path.join(wd, "resp.pkl")
                 with open(req, "w") as f:
-                    json.dump({"prog": prog, "counter": j, "spec": spec_kw, "out_ids": out_ids, "resp": resp}, f)
+                    json.dump({"prog": prog, "counter": j, "spec": spec_kw, "out_ids": out_ids, "resp": resp, "sender_computes": bool(case.get("sender_computes"))}, f)
                 r = subprocess.run([sys.executable, "-m", "vp.c20_child", req], capture_output=True, text=True, timeout=300, env=dict(os.environ))
                 if r.returncode == 3:
                     labels.add("declined-in-sender")
@@ -144,6 +147,11 @@ def check_case(case) -> Outcome:
                 try:
                     spec_s = cubed.Spec(**spec_kw)
                     arrs_s = P.build_cubed(prog, spec_s)
+                    if case.get("sender_computes"):
+                        try:
+                            cubed.compute(*[arrs_s[i] for i in out_ids])  # default executor of the spec
+                        except Exception:
+                            pass
                     blob = cloudpickle.dumps([arrs_s[i] for i in out_ids])
                 except Exception as e:
                     labels.add(f"declined-in-sender:{type(e).__name__}")
@@ -156,7 +164,7 @@ def check_case(case) -> Outcome:
             for n in range(case["local_arrays"]):
                 locals_.append(_local((3,), "int64", spec_r, n)[0] + 1)
             got = cloudpickle.loads(blob)
-            ex = lambda: H.make_executor("single-threaded")  # noqa: E731
+            ex = (lambda: H.make_executor("single-threaded")) if case.get("explicit_executor", True) else (lambda: None)  # noqa: E731
             kw = dict(optimize_graph=case["optimize"])
             # alone
             try:
@@ -208,6 +216,24 @@ def check_case(case) -> Outcome:
                     except (ValueError, TypeError, NotImplementedError) as e:
                         labels.add("combo-declined")
                         y = None
+                        # "behaves like any other array": the same combination with an equivalent array built locally
+                        # under the receiver's spec must be declined too
+                        try:
+                            arrs_l = P.build_cubed(prog, spec_r)
+                            al = arrs_l[out_ids[-1]]
+                            if combo in ("add-left", "two-pickled", "pickled-with-own-ancestor"):
+                                _ = al + loc2
+                            elif combo in ("add-right", "subtract-right"):
+                                _ = loc2 - al
+                            elif combo == "stack":
+                                _ = xp.stack([loc2, al, loc])
+                            elif combo == "concat":
+                                _ = xp.concat([al, loc2], axis=0)
+                            elif combo == "where":
+                                _ = xp.where(loc > 0, al, loc2)
+                            fails.append(Failure("combination-declined-only-for-deserialized", f"{combo}: {type(e).__name__}: {str(e)[:160]}"))
+                        except (ValueError, TypeError, NotImplementedError):
+                            pass
                     if y is not None:
                         try:
                             r2 = np.asarray(y.compute(executor=ex(), **kw))
